@@ -25,6 +25,8 @@ enum Op {
     Enable(Vec<String>),
     Disable(Vec<String>),
     Reload,
+    /// a `deserialize` that is rejected (truncated / foreign bytes): nothing may change
+    RejectedLoad(u8),
 }
 fn op_json(o: &Op) -> Value {
     match o {
@@ -32,11 +34,12 @@ fn op_json(o: &Op) -> Value {
         Op::Enable(t) => json!({"enable": t}),
         Op::Disable(t) => json!({"disable": t}),
         Op::Reload => json!("reload"),
+        Op::RejectedLoad(k) => json!({"rejected_load": k}),
     }
 }
 fn op_from(v: &Value) -> Op {
     let strs = |x: &Value| x.as_array().unwrap().iter().map(|s| s.as_str().unwrap().to_string()).collect::<Vec<_>>();
-    if let Some(x) = v.get("use") { Op::Use(strs(x)) } else if let Some(x) = v.get("enable") { Op::Enable(strs(x)) } else if let Some(x) = v.get("disable") { Op::Disable(strs(x)) } else { Op::Reload }
+    if let Some(x) = v.get("use") { Op::Use(strs(x)) } else if let Some(x) = v.get("enable") { Op::Enable(strs(x)) } else if let Some(x) = v.get("disable") { Op::Disable(strs(x)) } else if let Some(x) = v.get("rejected_load") { Op::RejectedLoad(x.as_u64().unwrap_or(0) as u8) } else { Op::Reload }
 }
 fn op_coq(o: &Op) -> String {
     match o {
@@ -44,6 +47,7 @@ fn op_coq(o: &Op) -> String {
         Op::Enable(t) => format!("OpEnable {}", cstrs(t)),
         Op::Disable(t) => format!("OpDisable {}", cstrs(t)),
         Op::Reload => "OpReload".into(),
+        Op::RejectedLoad(_) => unreachable!("a rejected load is not an operation of the model: it is left out of the history"),
     }
 }
 fn apply(e: &mut Engine, lines: &[String], o: &Op) {
@@ -58,6 +62,19 @@ fn apply(e: &mut Engine, lines: &[String], o: &Op) {
             let bytes = other.serialize_raw().unwrap();
             e.deserialize(&bytes).unwrap();
         }
+        Op::RejectedLoad(k) => {
+            // bytes the loader must refuse: a valid buffer cut short, foreign bytes, nothing at all
+            let mut other = Engine::from_rules_parametrised(lines.iter(), Default::default(), true, false);
+            other.use_tags(&["zz", "t3"]);
+            let good = other.serialize_raw().unwrap();
+            let bytes: Vec<u8> = match k % 4 {
+                0 => good[..good.len() / 2].to_vec(),
+                1 => good[..5.min(good.len())].to_vec(),
+                2 => vec![],
+                _ => b"\x1f\x8b\x08 not an engine".to_vec(),
+            };
+            assert!(e.deserialize(&bytes).is_err(), "a truncated / foreign buffer was accepted");
+        }
     }
 }
 fn set_apply(s: &mut BTreeSet<String>, o: &Op) {
@@ -69,7 +86,7 @@ fn set_apply(s: &mut BTreeSet<String>, o: &Op) {
                 s.remove(x);
             }
         }
-        Op::Reload => {}
+        Op::Reload | Op::RejectedLoad(_) => {}
     }
 }
 fn gen_tags(r: &mut Rng) -> Vec<String> {
@@ -194,7 +211,7 @@ fn main() {
                         Op::Use(t) => b.use_tags(&t.iter().map(|s| &**s).collect::<Vec<_>>()),
                         Op::Enable(t) => b.enable_tags(&t.iter().map(|s| &**s).collect::<Vec<_>>()),
                         Op::Disable(t) => b.disable_tags(&t.iter().map(|s| &**s).collect::<Vec<_>>()),
-                        Op::Reload => {}
+                        Op::Reload | Op::RejectedLoad(_) => {}
                     }
                 }
                 let r0 = b.check_parameterised(&req, &adblock::resources::ResourceStorage::default(), mr, fc);
@@ -219,7 +236,7 @@ fn main() {
     let mut cs = Cases::new(&a.out, "Hashing Net_Model Net_Proofs C07_Model");
     cs.shard = 40;
     let mut sm = Summary::default();
-    sm.rule = "rule lists with tagged blocking / exception / important / csp rules (3 tags) and untagged rules x histories of 1-8 operations (use/enable/disable with duplicate and unknown tags, reload of a serialized engine that had other tags enabled) x requests (ASCII, http(s), with source); non-trivial = some tagged rule of the list matches the request".into();
+    sm.rule = "rule lists with tagged blocking / exception / important / csp rules (3 tags) and untagged rules x histories of 1-8 operations (use/enable/disable with duplicate and unknown tags, reload of a serialized engine that had other tags enabled, a rejected load of truncated / foreign / empty bytes — which must change nothing) x requests (ASCII, http(s), with source); non-trivial = some tagged rule of the list matches the request".into();
     let n = 250 * a.scale;
     for _ in 0..n {
         let lines = gen_rules(&mut r);
@@ -253,11 +270,12 @@ fn main() {
         let nops = r.range(1, 8);
         let mut ops: Vec<Op> = vec![];
         for _ in 0..nops {
-            let o = match r.below(8) {
+            let o = match r.below(9) {
                 0 | 1 => Op::Use(gen_tags(&mut r)),
                 2 | 3 | 4 => Op::Enable(gen_tags(&mut r)),
                 5 | 6 => Op::Disable(gen_tags(&mut r)),
-                _ => Op::Reload,
+                7 => Op::Reload,
+                _ => Op::RejectedLoad(r.below(4) as u8),
             };
             apply(&mut e, &lines, &o);
             apply(&mut eo, &lines, &o);
@@ -266,7 +284,7 @@ fn main() {
                     Op::Use(t) => b.use_tags(&t.iter().map(|s| &**s).collect::<Vec<_>>()),
                     Op::Enable(t) => b.enable_tags(&t.iter().map(|s| &**s).collect::<Vec<_>>()),
                     Op::Disable(t) => b.disable_tags(&t.iter().map(|s| &**s).collect::<Vec<_>>()),
-                    Op::Reload => {}
+                    Op::Reload | Op::RejectedLoad(_) => {}
                 }
             }
             set_apply(&mut set, &o);
@@ -308,11 +326,11 @@ fn main() {
             if mr || fc { cs.stat("subset_query"); }
             let exists: Vec<bool> = UNIVERSE.iter().map(|t| e.tag_exists(t)).collect();
             let probes = clist(&req.get_tokens_for_match().copied().collect::<Vec<u64>>(), |x| cn(*x));
-            cs.stat(match ops.last().unwrap() { Op::Use(_) => "use", Op::Enable(_) => "enable", Op::Disable(_) => "disable", Op::Reload => "reload" });
+            cs.stat(match ops.last().unwrap() { Op::Use(_) => "use", Op::Enable(_) => "enable", Op::Disable(_) => "disable", Op::Reload => "reload", Op::RejectedLoad(_) => "rejected_load" });
             cs.case(
                 format!(
                     "let L := {} in let b := run_ops seahash L {} in list_eqb Bool.eqb (map (tag_exists b) {}) {} && verdict_eqb (blocker_check_p (fun f => memN (rid f) {}) {} {} {} b) (Build_verdict {} {} {} {})",
-                    coq_rules(&dumps), clist(&ops, op_coq), clist(UNIVERSE, |t| hxs(t)), clist(&exists, |b| cbool(*b).to_string()),
+                    coq_rules(&dumps), clist(&ops.iter().filter(|o| !matches!(o, Op::RejectedLoad(_))).cloned().collect::<Vec<Op>>(), op_coq), clist(UNIVERSE, |t| hxs(t)), clist(&exists, |b| cbool(*b).to_string()),
                     clist(&matching, |x| cn(*x)), probes, cbool(mr), cbool(fc), cbool(got.matched), cbool(got.important), cbool(got.exception), cbool(got.filter)
                 ),
                 desc,
